@@ -489,7 +489,15 @@ func cfgFile(yamlText string, work string) (res string) {
 	// accepted: instantiate every part that needs no network or directory
 	args := loader.PipelineArgs
 	mf := promreg.NewMetricFactory(fmt.Sprintf("vc%d_", time.Now().UnixNano()), nil, nil)
-	pc := base.NewLogProcessCounter(mf, args.Schema, args.MetricKeyLocators, []string{"o"})
+	// the labelled metric creator of a pipeline, as byKeySetOrchestrator.newPipeline builds it
+	keyNames := []string{"orchestrator"}
+	keyVals := []string{"byKeySet"}
+	for _, k := range loader.ConfigStats.OrchestrationKeys {
+		keyNames = append(keyNames, "key_"+k)
+		keyVals = append(keyVals, "v")
+	}
+	pmf := mf.AddOrGetPrefix("process_", keyNames, keyVals)
+	pc := base.NewLogProcessCounter(pmf, args.Schema, args.MetricKeyLocators, []string{"o"})
 	tfs := bsupport.NewTransformsFromConfig(args.TransformConfigs, args.Schema, logger.WithField("verif", "cfg"), pc)
 	var parser base.LogParser
 	for _, in := range loader.Inputs {
@@ -674,6 +682,30 @@ func yamlMutants(root *yaml.Node, fields map[string]bool, emit func(desc string,
 			emit(fmt.Sprintf("line %d: list item -> null", old.Line), render())
 			*n = old
 		}
+		// (4) containers: emptied; sequences: one item fewer, one / two items more, all but one removed
+		if n.Kind == yaml.MappingNode || n.Kind == yaml.SequenceNode {
+			saved := n.Content
+			n.Content = nil
+			emit(fmt.Sprintf("line %d: container emptied", n.Line), render())
+			n.Content = saved
+			if n.Kind == yaml.MappingNode {
+				old := *n
+				*n = yaml.Node{Kind: yaml.SequenceNode}
+				emit(fmt.Sprintf("line %d: mapping -> []", old.Line), render())
+				*n = old
+			}
+			if n.Kind == yaml.SequenceNode && len(saved) > 0 {
+				n.Content = saved[:len(saved)-1]
+				emit(fmt.Sprintf("line %d: last item removed", n.Line), render())
+				n.Content = saved[:1]
+				emit(fmt.Sprintf("line %d: only the first item kept", n.Line), render())
+				n.Content = append(append([]*yaml.Node{}, saved...), saved[len(saved)-1])
+				emit(fmt.Sprintf("line %d: last item duplicated", n.Line), render())
+				n.Content = append(append([]*yaml.Node{}, saved...), saved[0], saved[len(saved)-1])
+				emit(fmt.Sprintf("line %d: two items appended", n.Line), render())
+				n.Content = saved
+			}
+		}
 	}
 }
 
@@ -752,9 +784,10 @@ func (c *cfgComp) Generate(rng *rand.Rand, n int, emit func(Case)) {
 	limit := n / 10
 	yamlMutants(&root, fields, func(desc, text string) {
 		count++
-		if text == "" || (limit > 0 && count%maxInt(1, 2600/limit) != 0 && n < 100000) {
+		if text == "" {
 			return
 		}
+		_ = limit
 		emit(Case{Ops: []Op{fileOp(desc, text)}, Tag: "file-mutated"})
 	})
 }
